@@ -213,14 +213,14 @@ def gen_command_script(rnd):
             if rnd.random() < 0.6:
                 opts += " :weight %s" % rnd.choice(["3", "1.5", "(- 2)", "0"])
             if rnd.random() < 0.6:
-                opts += " :id %s" % rnd.choice(["goal", "g2", "|my goal|"])
+                opts += " :id %s" % rnd.choice(["goal", "g2", "|my goal|", "|goal :weight 7|", "|a(b|"])
             body.append("(assert-soft %s%s)" % (w.term(forms[fi % len(forms)]), opts))
             tags.add("assert-soft")
         elif k == 9:
             t = rnd.choice(ints + bvs)
             opts = ""
             if rnd.random() < 0.5:
-                opts += " :id %s" % rnd.choice(["goal", "obj1"])
+                opts += " :id %s" % rnd.choice(["goal", "obj1", "|my obj|", "|o :signed|"])
             if reftype(t) != INT and rnd.random() < 0.5:
                 opts += " :signed"
             body.append("(%s %s%s)" % (rnd.choice(["minimize", "maximize"]), w.term(t), opts))
@@ -228,6 +228,9 @@ def gen_command_script(rnd):
         elif k == 10:
             ts = ints if rnd.random() < 0.5 else bvs
             opts = " :signed" if ts is bvs and rnd.random() < 0.5 else ""
+            if rnd.random() < 0.5:
+                ident = " :id %s" % rnd.choice(["goal", "mm1", "|my goal|", "|goal :signed|", "|a(b|"])
+                opts = ident + opts if rnd.random() < 0.5 else opts + ident
             body.append("(%s %s%s)" % (rnd.choice(["minmax", "maxmin"]), " ".join(w.term(t) for t in ts), opts))
             tags.add("minmax")
         elif k == 11:
